@@ -3,8 +3,63 @@ N_QUICK = 500
 N_THOROUGH = 12000
 MODEL_SHOW = "run"
 DISAGREE_IS_VIOLATION = True   # observables are exactly what the property fixes
-RULE = "tbd"
-TRUSTED_BASE = ["tbd"]
-ASSUMPTIONS = ["tbd"]
-TECHNIQUE = "tbd"
-LEVEL_TEXT = "tbd"
+HARNESS_TIMEOUT = 600
+RULE = ("fixed: 13 boundary histories (deadline = now / now-1 / now+1, id allocator at MaxReqId-1 and MaxReqId, late and "
+        "duplicate replies, suppressed replies, undecodable bodies, nested no-route callbacks), 1 (quick) / 4 (thorough) histories "
+        "scanned by the REAL 1 s timer; exhaustive: every op sequence of length <= 3 (quick) / 4 (thorough) over an 8-op alphabet "
+        "(request, re-entrant request, notify, reply ok for id 1, remote error for id 2, advance 30000, advance 1, tick) followed by "
+        "a completing suffix; random: 1-70 ops, up to ~40 outstanding requests, callback programmes nested to depth 2 (requests, "
+        "unserialisable requests, notifies, no-route requests issued from inside callbacks), replies aimed at pending / completed "
+        "(late, duplicate) / unknown ids with kinds ok, nil, remote error, undecodable (unknown type or corrupt body), clock steps "
+        "aimed at deadline-1/deadline/deadline+1, allocator started at MaxReqId-3..MaxReqId in 1/4 of the cases, 60% completed by "
+        "scans after every deadline. Non-trivial = at least one request was completed by a callback other than NoService; "
+        "distinct = distinct op sequences.")
+TRUSTED_BASE = [
+    "Coq 8.16.1 kernel + vm_compute (case evaluation, C01_wrap_refuted, Examples); no native_compute",
+    "hand translation actorex/service/service.go (doRequestEx, AllocReqId, handleResponse, checkExpired, tryStartCheckTimer, ResponseEx) "
+    "and node/app/serviceutils.go Request (no-target branch) -> C01/Model.v, measured by this correspondence run",
+    "Go harness harness/c01 (actor driver: ops as messages through the service mailbox, scripted peer service, sender middleware "
+    "recording sends, closures recording callbacks), verif hook actorex/service/verif_export.go, bin/check.py JSON->Coq term printer",
+    "the order in which Go's map iteration yields expired requests inside one checkExpired is taken from the implementation's own "
+    "trace (Corr.with_hints); the theorems hold for every order",
+    "modelled not verified: protoactor (local Send = post to the target mailbox, FIFO per mailbox; supervision), cell2's mailbox and "
+    "runservice loop (C09/C04), utils/timer (the armed 1 s timer calls checkExpired: sampled by the realtimer cases, otherwise the "
+    "harness fires the scan itself through VerifCheckExpired when the timer is armed), protobuf (de)serialisation of payloads "
+    "(opaque: ok payload / undecodable), int32 ids as Z below MaxReqId",
+    "measured, not proved: every callback and every operation ran on the goroutine of the service loop (runtime.Stack goroutine id), "
+    "reported as the onloop bit of each observation and required by the monitor",
+]
+ASSUMPTIONS = [
+    "Request/Notify are called inside the service's own context (the code comments require it); the harness does so",
+    "freshness guard: no request is registered under an id that is still pending; by C01_clash_needs_wrap this can only fail after "
+    "MaxReqId = 0x7FFFFFF0 further requests were issued while one stayed pending (within its 30 s deadline); C01_wrap_refuted shows "
+    "the lost callback when it does fail",
+    "user callbacks do not panic (a panic restarts the actor, which drops the pending table)",
+    "the model is of the repaired code (hooks/C01-fix-arm-timer-on-register.patch, hooks/C01-fix-response-unknown-type.patch)",
+    "the virtual clock common.VerifSetNowMs replaces wall-clock time; time never runs backwards",
+]
+TECHNIQUE = ("Coq proof: executable model of the pending-request table decomposed into primitive transitions; an executable trace "
+             "acceptor proved sound for the property's trace clauses (at most once, matching, discard, drain) and proved to accept "
+             "every guard-respecting model trace (simulation), plus timer / scan-completeness / wrap-around lemmas; differential "
+             "correspondence of the model against the real service.Service in a local actor system, and the acceptor run on the "
+             "implementation's own event trace")
+LEVEL_TEXT = ("Machine-checked Coq theorems over ALL operation lists (all interleavings of requests, re-entrant callbacks, replies, "
+              "duplicates, late and unknown replies, clock steps and expiry scans in any map-iteration order): at most one callback "
+              "per request, result matching, discard without effect, |pending| = issued - completed, exactly-once and empty table in "
+              "complete histories, timer armed while anything is pending, id wrap-around guard. The model is tied to the Go code by "
+              "running both on the same histories each run; 'callback runs in the service context' is a goroutine-id measurement.")
+
+
+def extra_coverage(cases):
+    """measured part of the property: callbacks on the service loop goroutine"""
+    ncb = off = 0
+    for c in cases:
+        for o in c.get("obs") or []:
+            a = o.get("Obs") if isinstance(o, dict) else None
+            if not a:
+                continue
+            n = sum(1 for e in a[0] if isinstance(e, dict) and "ECb" in e)
+            ncb += n
+            if not a[5]:
+                off += 1
+    return {"measurement_callbacks_observed": ncb, "measurement_ops_off_loop_goroutine": off}
